@@ -67,6 +67,14 @@ def gen_case(rng, i, tier):
     if i % 3 == 1 or i % 6 == 0:    # i % 6 == 0: weights together with several right-hand sides
         wk = "pos"
         build.append(["weights", [hx(round_to(rng.uniform(0.5, 2.0), sc), sc) for _ in range(N)]])
+    if i % 6 == 4:
+        # a few samples masked out by a weight of exactly zero (outlier rejection): the fit must converge all the same
+        wk = "zeros"
+        build = [o for o in build if o[0] != "weights"]
+        wv = [round_to(rng.uniform(0.5, 2.0), sc) for _ in range(N)]
+        for j in rng.sample(range(N), 3):
+            wv[j] = 0.0
+        build.append(["weights", [hx(v, sc) for v in wv]])
     rng.shuffle(build)     # the order of the builder calls must not matter
     case = {"scalar": sc, "ctor": ctor, "model": spec, "faults": None, "build": build,
             "ops": [["observe"], ["fit", {}], ["observe"], ["jac_quiet"], ["ref", [hx(t, sc) for t in truth]]],
